@@ -109,7 +109,10 @@ DeviationsAreViolations ==
   /\ LET s == [regs |-> [n \in RegNames |-> CASE n = "ss" -> 10 [] n = "bp" -> 6 [] OTHER -> 0], flags |-> 0, mem |-> << >>, bg |-> -1, stack |-> << >>]
          i == [cls |-> "lea", dst |-> [k |-> "reg16", r |-> "ax"], src |-> [k |-> "mem", seg |-> "", base |-> "bp", index |-> "", disp |-> 0]]
      IN Exec(s, i, 0).regs["ax"] = 6 /\ DevExec("Dev_LeaDsRelative", s, i, 0).regs["ax"] = 166 /\ DevApplies("Dev_LeaDsRelative", s, i)
-  /\ DevChainApplies("Dev_DeepMacroChainAborts", 4096, 134, FALSE) /\ ~DevChainApplies("Dev_DeepMacroChainAborts", 64, 134, FALSE)
+  /\ DevChainApplies("Dev_MacroNestingLimit", 4096, 0, FALSE, FALSE, TRUE) /\ DevChainApplies("Dev_MacroNestingLimit", 129, 0, FALSE, FALSE, TRUE)
+  \* an abort, a hang, a silent acceptance or a refusal within the limit are never the deviation
+  /\ ~DevChainApplies("Dev_MacroNestingLimit", 4096, 134, FALSE, FALSE, FALSE) /\ ~DevChainApplies("Dev_MacroNestingLimit", 128, 0, FALSE, FALSE, TRUE)
+  /\ ~DevChainApplies("Dev_MacroNestingLimit", 4096, 0, TRUE, FALSE, TRUE) /\ ~DevChainApplies("Dev_MacroNestingLimit", 4096, 0, FALSE, TRUE, FALSE)
 
 (***************************************************************************)
 (* C02: logic, shifts and rotates                                          *)
